@@ -146,6 +146,10 @@ def family(tier):
     F.append(("idle2", [x], {"a": cust([idle(1, "tap", 2)]), "b": pr}, [(0, "toggle")], 3, 3))
     F.append(("idle3", [x, y], {"a": cust([idle(1, "press", 3)]), "b": cust([idle(2, "tap", 2)], [op(1, "release")])},
               [(1, "tap")] if tier != "quick" else [], 3, 3))
+    # on-idle counts only real idle time: a pending hold-for-duration (of a virtual key that leaves no pressed key
+    # behind: a held layer) is not idle time; the hold outlasts the idle time
+    F.append(("idle_hfd_lwh", [VK_LWH(1), y], {"a": cust([hfd(1, 4)]), "b": cust([idle(2, "tap", 2)]), "p": probe()},
+              [], 3, 2))
     # layer-while-held virtual key seen through a probe key
     F.append(("lwh", [VK_LWH(1), y], {"a": cust([op(1, "press")], [op(1, "release")]), "p": probe()},
               [(0, "toggle"), (0, "tap"), (1, "toggle")] if tier != "quick" else [(0, "toggle"), (1, "tap")],
@@ -155,6 +159,10 @@ def family(tier):
               {"a": macro(("p", op(1, "press")), 2, ("p", op(1, "release"))), "b": cust([op(2, "tap")])},
               [(0, "toggle"), (1, "tap")] if tier != "quick" else [(0, "toggle")], 4, 3 if tier != "quick" else 2))
     if tier != "quick":
+        F.append(("idle_hfd_mac", [VK_MAC("y", "z"), x], {"a": cust([hfd(1, 3), idle(2, "tap", 2)]), "b": cust([idle(2, "press", 3)])},
+                  [(1, "release")], 3, 3))
+        F.append(("idle_hfd_lwh3", [VK_LWH(1), y], {"a": cust([hfd(1, 4), idle(2, "toggle", 3)]), "p": probe()},
+                  [(1, "tap")], 3, 3))
         F.append(("ops2", [x, y], {"a": cust([op(1, "tap"), op(2, "toggle")]), "b": cust([op(2, "press")], [op(1, "toggle")])},
                   [(0, "press"), (0, "release"), (1, "tap")], 4, 3))
         F.append(("three", [x, VK_LWH(1), VK_MAC("y", "z")],
@@ -277,6 +285,26 @@ def hfd_real_scripts(rng, n):
     return S
 
 
+def idle_hfd_real_instance():
+    """Realistic durations (recorded traces only): on-idle armed together with a hold-for-duration of a layer."""
+    return [VK_LWH(1), VK_KEY("x")], {"a": cust([hfd(1, 50), idle(2, "tap", 20)]), "b": cust([idle(2, "tap", 20)]),
+                                      "p": probe()}
+
+
+def idle_hfd_real_scripts(rng, n):
+    C = cfgdesc.code
+    tap = lambda k, g: [["d", C(k)], ["t", g], ["u", C(k)]]
+    S = [tap("a", 2) + [["t", 120]],                                   # x is tapped 20 idle ticks after the hold ended
+         tap("a", 2) + [["t", 30]] + tap("p", 2) + [["t", 120]],       # probe typed on the held layer; restarts the idle time
+         tap("b", 2) + [["t", 10]] + tap("a", 2) + [["t", 120]]]
+    for _ in range(n):
+        s = []
+        for _ in range(rng.randint(2, 5)):
+            s += tap(rng.choice("aabp"), rng.choice([1, 2])) + [["t", rng.choice([1, 5, 19, 20, 21, 30, 49, 50, 51, 75])]]
+        S.append(s + [["t", 120]])
+    return S
+
+
 def seq_instance():
     """The sequence-termination trigger (defseq): not in the L1 model; covered by recorded traces only."""
     vks = [VK_KEY("x"), VK_KEY("y")]
@@ -325,7 +353,7 @@ def run(tier, seed):
         kbd, params = make(vks, kdesc)
         keys = [cfgdesc.code(k) for k in kdesc]
         inst = mc_instance(name, kbd, params, keys, direct, max_states, qmax)
-        r = mc.check_instance(inst, wd, workers=8, timeout=1500)
+        r = mc.check_instance(inst, wd, workers=6, timeout=1500)
         res.add_instance(r)
         if len(res.samples) < 4:
             res.samples.append({"instance": name, "kbd": kbd, "direct_ops": direct, "states": r["states"],
@@ -352,6 +380,10 @@ def run(tier, seed):
     kbd, params = make(vks, kdesc)
     jobs_random.append({"cfg": kbd, "params": params, "tag": "h:hfd_real",
                         "scripts": hfd_real_scripts(rng, 20 if tier == "quick" else 200)})
+    vks, kdesc = idle_hfd_real_instance()
+    kbd, params = make(vks, kdesc)
+    jobs_random.append({"cfg": kbd, "params": params, "tag": "i:idle_hfd_real",
+                        "scripts": idle_hfd_real_scripts(rng, 20 if tier == "quick" else 200)})
     vks, kdesc, direct = equiv_instance()
     kbd, params = make(vks, kdesc)
     jobs_random.append({"cfg": kbd, "params": params, "tag": "e:equiv",
